@@ -36,12 +36,18 @@ PROP = dict(
               "99991, 100000, 131072} and irfft/IfftPlanR (both forms, definition + round trip + after_reject) at the even ones, with the "
               "boundary/split position set, closed-form and extreme-magnitude letters; odd n in {4097, 4099, 46341, 65535, 65537, 70001, 131071} must "
               "throw; sparse stft/istft grid also at nfft 4096, and two long-signal cases: nfft 256 with 77183 / 38783 samples and nfft 4096 with "
-              "1071103 / 537599 samples (signal length x nfft/2 exceeds 2^31); stft.history also at (4096, 2048)",
+              "1071103 / 537599 samples (signal length x nfft/2 exceeds 2^31); stft.history also at (4096, 2048). "
+              "istft.shortwin: window shorter than nfft: nfft in {16, 64, 256}, nwin in {nfft-1, nfft/2, 3}, windows hann-sym/hann-per/hamming-sym/rect, "
+              "every overlap accepted by iscola (nfft 16) or hops {(nwin-1)/2, nwin/2, nwin/4, 1} (64, 256), ola and wola, signal length EXACTLY "
+              "nwin + k*hop for k in {0, 1, 5} and one sample more / less, ramp + dense. stft.overloads: every public overload and default-argument "
+              "form of stft / istft (stft(x,nfft[,range]), stft(x,win,overlap,nfft), istft(X,nfft[,range[,method]]), istft(X,win,overlap,nfft[,range])) "
+              "bit-identical to the fully explicit call it documents (periodic hann(nfft), overlap nfft/2, Onesided, Wola) and the round trip through "
+              "the short forms, nfft in {8,16,64,256,1024} x 3 ranges x 2 methods x 2 lengths",
         thorough="as quick with every n in 1..8192 for ifft, irfft (even n), after_reject and odd-n rejection (1..8193) plus the big lengths above 8192 "
                  "(all columns/impulses for n <= 256, dense oracle n <= 1024); stft/istft full grid (every accepted overlap, 3 ranges, 9 lengths) "
                  "for nfft in {8,12,16,20,24,32,48,64,96,128,192,256,384,512,1024,2048}, sparse grid at 4096 and 8192, the two long-signal "
                  "cases; stft.history adds (512,256), (1024,768), (24,18), (96,72), (128,96), (128,64), (1024,512), (2048,1536), (4096,3072), "
-                 "(8192,4096) and all window triples with distinct neighbours; ASan pass n <= 256"),
+                 "(8192,4096) and all window triples with distinct neighbours; istft.shortwin also at nfft 1024; ASan pass n <= 256"),
     deadline=dict(quick=150, thorough=3000),
     passes=[dict(name="main"), dict(name="asan", variant="asan", args=["--asan-pass"])],
     assumptions=COMMON_ASSUME + [
